@@ -1117,11 +1117,15 @@ def parse_full(p):
             return ("grp", cap, body, me)
         if c == "[":
             j = p.index("]", pos)
-            items = [("c", x) for x in p[pos + 1:j]]
+            neg = p[pos + 1:pos + 2] == "^"
+            items = [("c", x) for x in p[pos + (2 if neg else 1):j]]
             pos = j + 1
-            return ("cls", False, items, None)
+            return ("cls", neg, items, None)
         if c == "\\":
             j = pos + 1
+            if p[j] in "SsdDwW":
+                pos = j + 1
+                return ("esc", p[j])
             n = int(p[j])
             j += 1
             while j < len(p) and p[j].isdigit() and int(str(n) + p[j]) <= ng[0]:
